@@ -175,5 +175,5 @@ def jobs(tier):
             for r in range(4):
                 J.append(dict(harness=('c07', 'h_expect_list'), params=dict(N=3, r=r, L=1, fix=[list(fix)]), timeout_s=300,
                               label='split64:h_expect_list[N=3,r=%d,obs=%s]' % (r, ''.join(map(str, fix)))))
-        J.append(dict(harness=('c07', 'h_get_prob'), params=dict(N=3, r=0), timeout_s=900, cost=100, claimed=False, label='stretch:h_get_prob{"N": 3}'))
+        J.append(dict(harness=('c07', 'h_get_prob'), params=dict(N=3, r=0), timeout_s=300, wall_s=1200, cost=100, claimed=False, label='stretch:h_get_prob{"N": 3}'))
     return J
